@@ -146,6 +146,14 @@ def run(ctx):
     for i in range(0, len(A), 300):
         progs.append(("typedgen", "c11", typed_program(A[i:i + 300], i)[0]))
 
+    # enumerative declaration forms, one external declaration per line, judged line by line (like typedgen)
+    from gen.declforms import corpus as declforms_corpus, program as declforms_program
+    DF = declforms_corpus()
+    if ctx.quick:
+        DF = [x for i, x in enumerate(DF) if x[0] != "array-parameter" or i % 4 == ctx.seed % 4 or "[*]" in x[1][:60] and i % 2 == 0]
+    for i in range(0, len(DF), 250):
+        progs.append(("declforms", "c11", declforms_program(DF[i:i + 250], i)[0]))
+
     def gcc_ok(p):
         fam, std, text = p
         # c11: plain acceptance; older dialects: pedantic errors ON (no -w), so that C11-only keywords are not let through as extensions
@@ -158,7 +166,7 @@ def run(ctx):
     good = [p for p, (ok, _) in zip(progs, oks) if ok]
     # typedgen: gcc rejects single lines on purpose; keep the lines it accepts
     for p, (ok, err) in zip(progs, oks):
-        if not ok and p[0] == "typedgen":
+        if not ok and p[0] in ("typedgen", "declforms"):
             bad = set(int(m.group(1)) for m in re.finditer(r"<stdin>:(\d+):\d+: error", err))
             keep = [l for i, l in enumerate(p[2].split("\n"), 1) if i not in bad]
             good.append((p[0], p[1], "\n".join(keep) + "\n"))
